@@ -137,8 +137,7 @@ def coq_build(targets: list[str], timeout: int = 1500) -> BuildResult:
             q = subprocess.run(["make", "-q", v], cwd=COQ, capture_output=True, text=True)
             return q.returncode == 0 and (COQ / v).exists()
 
-        with ThreadPoolExecutor(max_workers=NPROC) as ex:
-            status = list(ex.map(up_to_date, vo))
+        status = [up_to_date(v) or up_to_date(v) for v in vo]   # sequential: concurrent make -q runs interfere
         for t, v, ok in zip(targets, vo, status):
             if ok:
                 res.ok_targets.append(t)
